@@ -337,3 +337,9 @@ def r07_11(ctx):
         ctx.check(ok, "SplineMethod.grid_control leaves out the %s point when %s is False" % ("first" if flag == "include_first" else "last", flag),
                   detail="%s ignored by SplineMethod sampling / constraint placement (or times and values cut differently)" % flag,
                   expected="if not %s [and %s==0]: %s = %s[%s]; %s = %s[%s]" % (flag, off, tn, tn, tsl, vn, vn, vsl), found=str(cuts), fi=f, sample={"flag": flag, "cuts": str(cuts)})
+
+
+@rule("R07.12", min_instances=8, desc="refined sampling evaluates every symbol with its own values: pack order of the expression function's p input (shared with C08)")
+def r07_12(ctx):
+    from .c01 import check_pack_order_fine
+    check_pack_order_fine(ctx)
